@@ -242,9 +242,23 @@ def unhx(t: str) -> bytes:
 # known findings
 # ----------------------------------------------------------------------------
 def load_findings(prop):
+    """Open known findings of a property: known_findings.json plus the per-family files
+    notes/findings_<family>.json (lists of entries; merged into known_findings.json at integration).
+    Read-only at run time."""
+    import glob
+
     with open(os.path.join(VERIF, "known_findings.json")) as f:
         kf = json.load(f)
-    return [e for e in kf.get("open", []) if e["property"] == prop]
+    entries = list(kf.get("open", []))
+    for path in sorted(glob.glob(os.path.join(VERIF, "notes", "findings_*.json"))):
+        with open(path) as f:
+            entries += json.load(f)
+    seen, out = set(), []
+    for e in entries:
+        if e["property"] == prop and e["signature"] not in seen:
+            seen.add(e["signature"])
+            out.append(e)
+    return out
 
 
 def write_replay(prop, n, data):
